@@ -342,9 +342,10 @@ func runCase(t *rapid.T, engine string) {
 			} else {
 				c = g.Command(t, pool)
 			}
-			if c[0] == "expire" && known.Active("C14-expire-on-hll-key-corrupts-count") {
-				// exclusion by construction: KV EXPIRE could hit a key that holds a HyperLogLog
-				c[0] = "hexpire"
+			if (c[0] == "expire" || c[0] == "persist") && known.Active("C14-expire-on-hll-key-corrupts-count") {
+				// exclusion by construction: KV EXPIRE / PERSIST (the two commands that rewrite only the
+				// value header of a stored value) could hit a key that holds a HyperLogLog
+				c[0] = "h" + c[0]
 				rec("checkpoint_"+engine).Count("excluded_by_known_finding", 1)
 			}
 			before := len(part.Raft.Log)
